@@ -138,6 +138,13 @@ CHECKS = {
             'tile model; shift == size must partition the array.',
             'blimpy reads the pieces (library\'s own reader); content and headers of written pieces are checked with the independent reader',
             'DESIGN.md 3/C19'),
+    'C03': ('exploration',
+            'model-based histories over a frame pool (new/get_waterfall/copy/slice/dedrift/pickle/save_load) with round-trip oracle: independent SIGPROC/HDF5 reader, library reload, blimpy reader and stand-alone helpers all compared with the in-memory frame',
+            'Generated op histories create load->derive->save chains; at every save the file is read by an independent reader (shape, pixel-at-frequency, '
+            'resolution, start, name), reloaded through the library and compared with the saved frame, read by blimpy, and the helper axes must have '
+            'exactly nchans/nints entries; the in-session Waterfall must carry the same header/data.',
+            'whole-frame saves/loads only; HDF5 only for >= 3 rows and channels (blimpy reader limitation); 64 ulp frequency and 5 us start-time tolerances',
+            'DESIGN.md 3/C03'),
 }
 
 ALL = [f'C{i:02d}' for i in range(1, 21)]
